@@ -33,6 +33,9 @@ var goModels = map[string]string{
 	"strings.Index":                      "ModelIndexString",
 	"bytes.Index":                        "ModelIndex",
 	"(*sync.Once).Do":                    "ModelOnceDo",
+	"(*sync.Cond).Wait":                  "ModelCondWait",
+	"(*sync.Cond).Signal":                "ModelCondNotify",
+	"(*sync.Cond).Broadcast":             "ModelCondNotify",
 	"(*sync.Map).Load":                   "ModelSyncMapLoad",
 	"(*sync.Map).Store":                  "ModelSyncMapStore",
 	"(*sync.Map).LoadOrStore":            "ModelSyncMapLoadOrStore",
